@@ -100,6 +100,11 @@ def run_shard(ctx):
         tables = [S.gen_table(rng, j, max_cols=12) for j in range(k)]
         layout = rng.choice(SAFE_LAYOUTS)
         case = make_case(tables, layout, rng, "random")
+        if rng.random() < 0.12 and "\n" in case["ddl"]:
+            # the same script with Windows line ends (a string passed to DDLParser, not a file)
+            case["ddl"] = case["ddl"].replace("\n", "\r\n")
+            case["crlf"] = True
+            ctx.obs["crlf_scripts"] += 1
         check_case(ctx, case)
         if i == 0:
             ctx.sample({"ddl": case["ddl"][:600], "expected_first_table": case["expected"][0]})
